@@ -993,6 +993,59 @@ const PARSER_PRIMITIVES: [&str; 14] = [
     "at_any", "eat", "expect", "new",
 ];
 
+/// The DSL's primitives are modelled by hand (Glas/Model/Dsl.lean: `bump`, `nth`, marks, ...).  Their source text is
+/// pinned: every primitive method of `impl Parser` must be, token for token, the text the model was written from
+/// (xlate/primitives.expected, regenerate with GLAS_XLATE_PRINT_PRIMITIVES=1 after adapting Dsl.lean).
+pub fn check_primitives(file: &File) -> R<()> {
+    use quote::ToTokens;
+    let mut found: Vec<(String, String)> = Vec::new();
+    for it in &file.items {
+        if let Item::Impl(im) = it {
+            let is_parser = im.trait_.is_none()
+                && matches!(&*im.self_ty, Type::Path(tp) if tp.path.segments.last().map(|s| s.ident == "Parser").unwrap_or(false));
+            if !is_parser {
+                continue;
+            }
+            for ii in &im.items {
+                if let ImplItem::Fn(f) = ii {
+                    let name = f.sig.ident.to_string();
+                    // (`build_tree` is translated, not pinned: policy.rs reads its arms)
+                    if PARSER_PRIMITIVES.contains(&name.as_str()) && name != "build_tree" {
+                        let text = format!("{} {}", f.sig.to_token_stream(), f.block.to_token_stream());
+                        found.push((name, text.split_whitespace().collect::<Vec<_>>().join(" ")));
+                    }
+                }
+            }
+        }
+    }
+    found.sort();
+    if std::env::var("GLAS_XLATE_PRINT_PRIMITIVES").is_ok() {
+        for (n, t) in &found {
+            println!("{n}\t{t}");
+        }
+    }
+    let expected: Vec<(String, String)> = include_str!("../primitives.expected")
+        .lines()
+        .filter(|l| !l.is_empty())
+        .filter_map(|l| l.split_once('\t').map(|(a, b)| (a.to_string(), b.to_string())))
+        .collect();
+    for (n, t) in &expected {
+        match found.iter().find(|(m, _)| m == n) {
+            None => return fail(proc_macro2::Span::call_site(), format!("Parser::{n}: primitive not found (the model of the primitives was written from another text)")),
+            Some((_, got)) if got != t => {
+                return fail(proc_macro2::Span::call_site(), format!("Parser::{n}: the body of this primitive is not the text its model (Dsl.lean) was written from"))
+            }
+            _ => {}
+        }
+    }
+    for (n, _) in &found {
+        if !expected.iter().any(|(m, _)| m == n) {
+            return fail(proc_macro2::Span::call_site(), format!("Parser::{n}: primitive without a pinned text"));
+        }
+    }
+    Ok(())
+}
+
 fn sig_of(sig: &Signature, idx: usize) -> R<Sig> {
     let mut params = Vec::new();
     for a in sig.inputs.iter().skip(1) {
